@@ -21,9 +21,15 @@ MODEL = xmlgen.simple_model(
     locations=[("id0", "A", [("invariant", "lx <= 10")], None), ("id1", "B", [], None), ("id2", "C", [], "urgent")],
     edges=[("id0", "id1", [("guard", "lx >= 1"), ("assignment", "i = i + 1, lx = 0")]),
            ("id1", "id0", [("synchronisation", "go!")]), ("id1", "id2", [("guard", "i > 3")])],
-    system="P1 = P();\nP2 = P();\nsystem P1, P2;")
+    extra_templates=('<template><name>R</name><parameter>const int[0,1] ra, const int[0,2] rb</parameter><declaration>int K0; clock rx;</declaration>'
+                     '<location id="r0"><name>RA</name></location><location id="r1"><name>RB</name></location><init ref="r0"/>'
+                     '<transition><source ref="r0"/><target ref="r1"/><label kind="guard">rx &gt;= ra</label><label kind="assignment">K0 = rb</label></transition></template>'
+                     '<template><name>S1</name><parameter>const int[0,2] sa</parameter><declaration>int sk;</declaration><location id="s0"><name>SA</name></location>'
+                     '<init ref="s0"/></template>'),
+    system="P1 = P();\nP2 = P();\nsystem P1, P2, R, S1;")
 
-PRED = ["P1.A", "P1.B and i > 2", "x < 5", "i == 3 || b", "not P2.B", "P1.A imply x <= 3",
+PRED = ["R(1,2).K0 > 0", "R(0,1).RA", "S1(2).sk == 0 && S1(0).SA", "forall (q : int[0,1]) R(q, 1).RB imply R(q, 0).K0 >= 0", "R(1,0).rx > 2",
+        "P1.A", "P1.B and i > 2", "x < 5", "i == 3 || b", "not P2.B", "P1.A imply x <= 3",
         "forall (q : int[0,2]) a[q] >= 0", "exists (q : int[0,2]) a[q] == i", "P1.lx > 2 && P2.li == 0", "b", "true",
         "i + j * 2 < bi", "(P1.A or P1.B) and not P1.C", "f1(i) > 2", "s.f == 1", "a[1] > a[0]", "P1.C",
         "i <? j > 0", "(i > 0 ? j : bi) == 1", "x - y < 3", "d > 0.5", "P1.A && P2.A"]
@@ -51,6 +57,12 @@ def catalogue(rng, n):
         "AF": lambda: "A<> " + p(),
         "leadsto": lambda: p() + " --> " + p(),
         "buchi": lambda: "control: A[] (%s and A<> %s)" % (p(), p()),
+        "buchi-compound": lambda: "control: A[] ((%s) && A<> %s)" % (rng.choice(["i > 2 || b", "b imply i > 0", "i > 0 ? b : not b", "forall (q : int[0,2]) a[q] >= 0",
+                                                                                   "P1.A or P1.B", "b || P2.B && i == 0", "not b", "i == 3 && b"]), p()),
+        "buchi-EF-control": lambda: "E<> control: A[] ((%s) && A<> %s)" % (rng.choice(["i > 2 || b", "b imply i > 0", "P1.A"]), p()),
+        "pr-bound-expr": lambda: "Pr[%s<=(%s)](<> %s)" % (rng.choice(["x", "y", "#", ""]), rng.choice(["N > 1", "N + 1", "N > 1 ? 5 : 7", "N", "2 * N"]), p()),
+        "pr-cmp-mixed-bounds": lambda: "Pr[%s](%s %s) >= Pr[%s](%s %s)" % (rng.choice(BOUND), rng.choice(["<>", "[]"]), p(), rng.choice(BOUND), rng.choice(["<>", "[]"]), p()),
+        "scalar-binder": lambda: "A[] forall (q : scalar[3]) %s" % rng.choice(["true", "i >= 0", "b or not b"]),
         "control-AGAF": lambda: "control: A[] A<> %s" % p(),
         "sup": lambda: "sup: " + ", ".join(e() for _ in range(rng.randint(1, 3))),
         "sup-pred": lambda: "sup{%s}: %s" % (p(), ", ".join(e() for _ in range(rng.randint(1, 2)))),
